@@ -25,6 +25,7 @@ Print Assumptions C11_utf8_decode.
 
 Theorem C11_decode_rejects_lone_continuation : forall b rest, 128 <= b < 192 -> decode_utf8 (b :: rest) = DecErr.
 Proof. exact decode_rejects_lone_continuation. Qed.
+Print Assumptions C11_decode_rejects_lone_continuation.
 Theorem C11_decode_rejects_bad_continuation : forall b x rest,
   192 <= b < 256 -> x < 256 -> ~ (128 <= x < 192) -> decode_utf8 (b :: x :: rest) = DecErr.
 Proof. exact decode_rejects_bad_continuation. Qed.
@@ -34,6 +35,7 @@ Print Assumptions C11_decode_rejects_bad_continuation.
    that decodes back to the code point *)
 Theorem C11_utf16_bmp : forall c, c < 65536 -> utf16_units c = [c].
 Proof. exact utf16_bmp. Qed.
+Print Assumptions C11_utf16_bmp.
 Theorem C11_utf16_surrogates : forall c, 65536 <= c < 1114112 ->
   exists w1 w2, utf16_units c = [w1; w2] /\ 55296 <= w1 <= 56319 /\ 56320 <= w2 <= 57343 /\
                 utf16_decode [w1; w2] = Some c.
@@ -67,3 +69,4 @@ Example C11_nonvacuous :
   encode_utf8 65535 = [239; 191; 191] /\ encode_utf8 65536 = [240; 144; 128; 128] /\
   utf16_units 1114111 = [56319; 57343] /\ is_ident1 0x0300 = false /\ is_ident2 0x0300 = true.
 Proof. vm_compute. repeat split; reflexivity. Qed.
+Print Assumptions C11_nonvacuous.
